@@ -86,8 +86,7 @@ def name_maps(conv):
             elif cands:
                 free = [m for m in cands if m not in d0]
                 fm[n] = (free or cands)[0]
-        for raw in ("feed", "tick"):
-            fm[raw] = specs.convert_function_name(raw, other)
+        # the harness' own probes (tick, feed) are registered with explicit names, which no convention converts
         pm = {}
         c = yaql.create_context(convention=conventions.PythonConvention())
         while c is not None:
@@ -452,6 +451,8 @@ def stage_apply_text(expr, sg, pr, alias=0):
         return m("set", dict_text(sg[1]))
     if k == "dictSetInline":
         return m("set", *["%s => %s" % (vtext(a), vtext(b)) for a, b in sg[1]])
+    if k == "assertAny":
+        return m("assert", "$.any()")
     if k == "flatten":
         return m("flatten")
     if k == "defaultIfEmpty":
@@ -595,7 +596,7 @@ def stage_gal(sg):
         return A("SMergeWithX", gkvs(sg[1]), o2(sg[2]), o2(sg[3]), gal.z(0 if sg[4] is None else sg[4]))
     if k in ("dictSetMany", "dictSetInline"):
         return A("SDictPlus", gkvs(sg[1]))
-    if k in ("flatten", "isList", "isDict", "isSet", "isIterable"):
+    if k in ("flatten", "isList", "isDict", "isSet", "isIterable", "assertAny"):
         return "S" + k[0].upper() + k[1:]
     if k == "defaultIfEmpty":
         return A("SDefaultIfEmpty", gvals(sg[1]))
@@ -634,7 +635,7 @@ STAGE_NAMES = {
     "symmetricDifference": ["symmetricDifference"], "setAdd": ["add"], "setRemove": ["remove"],
     "self": ["memorize"], "keysView": ["keys"], "groupByAgg": ["groupBy"], "groupByLegacy": ["groupBy"], "attr": ["#operator_."], "unpackNamed": [], "unpackIdx": [], "with": [],
     "zipLongest": ["zipLongest"], "listOf": ["list"], "mergeWithX": ["mergeWith"], "dictSetMany": ["set"], "dictSetInline": ["set"],
-    "flatten": ["flatten"], "defaultIfEmpty": ["defaultIfEmpty"], "times": ["#operator_*"], "isList": ["isList"],
+    "assertAny": [], "flatten": ["flatten"], "defaultIfEmpty": ["defaultIfEmpty"], "times": ["#operator_*"], "isList": ["isList"],
     "isDict": ["isDict"], "isSet": ["isSet"], "isIterable": ["isIterable"], "in": ["#operator_in"],
     "setCmp": ["#operator_<", "#operator_<=", "#operator_>", "#operator_>="], "index": ["#indexer"], "indexDefault": ["#indexer"],
 }
@@ -781,6 +782,8 @@ def err_class(e):
         return "ENoMatch"
     if isinstance(e, yexc.CollectionTooLargeException):
         return "ETooLarge"
+    if isinstance(e, AssertionError):
+        return "EOther"
     if isinstance(e, StopIteration):
         return "EStop"
     if isinstance(e, IndexError):
@@ -875,14 +878,34 @@ def evaluate_fresh(text, mkdata, timeout=10, conv="camel"):
     """evaluate with freshly built data; a watchdog hit is only believed when it repeats (machine load).
     After a few confirmed hits (a tree on which evaluations hang) the patience is reduced so that the run ends."""
     ctx = context(conv)
+    eng = engine_opts(limit=2000, quota=(len(text) % 2 == 0))
     if WATCHDOG_HITS[0] >= 2:
-        return evaluate(text, mkdata(), 2, eng=engine_limited(), ctx=ctx)
-    o = evaluate(text, mkdata(), timeout, eng=engine_limited(), ctx=ctx)
+        return evaluate(text, mkdata(), 2, eng=eng, ctx=ctx)
+    o = evaluate(text, mkdata(), timeout, eng=eng, ctx=ctx)
     if o[0] == "err" and o[1] == "EOther" and o[2].startswith("watchdog"):
-        o = evaluate(text, mkdata(), 3 * timeout, eng=engine_limited(), ctx=ctx)
+        o = evaluate(text, mkdata(), 3 * timeout, eng=eng, ctx=ctx)
         if o[0] == "err" and o[1] == "EOther" and o[2].startswith("watchdog"):
             WATCHDOG_HITS[0] += 1
     return o
+
+
+QUOTA = 10 ** 9          # a memory quota that no generated case comes near: it must change nothing
+_engines_opt = {}
+
+
+def engine_opts(**opts):
+    """an engine per option set, e.g. engine_opts(quota=True, limit=3, noconv=True)"""
+    key = tuple(sorted(opts.items()))
+    if key not in _engines_opt:
+        o = {}
+        if opts.get("quota"):
+            o["yaql.memoryQuota"] = QUOTA
+        if opts.get("limit") is not None:
+            o["yaql.limitIterators"] = opts["limit"]
+        if opts.get("noconv"):
+            o["yaql.convertInputData"] = False
+        _engines_opt[key] = yaql.YaqlFactory().create(options=o)
+    return _engines_opt[key]
 
 
 _engines_lim = {}
@@ -1101,10 +1124,10 @@ def gen_stage(rng, kind, shape, n, allow_terminal=True, streaming_only=False, ce
            "zip", "insert", "insertMany", "delete", "replace", "replaceMany", "slice", "memorize", "selectMany",
            "accumulate", "concat"]
     if streaming_only:
-        ops += ["join", "plus"]
+        ops += ["join", "plus", "defaultIfEmpty", "assertAny"]
     if not streaming_only:
         ops += ["reverse", "orderBy", "groupBy", "join", "splitAt", "splitWhere", "sliceWhere", "toList", "plus",
-                "orderBy", "groupBy", "toSet", "flatten", "defaultIfEmpty", "times", "groupByAgg", "with", "zipLongest", "listOf"]
+                "orderBy", "groupBy", "toSet", "flatten", "defaultIfEmpty", "times", "assertAny", "groupByAgg", "with", "zipLongest", "listOf"]
         ops += ["thenBy"]
         if kind == "ord":
             ops += ["thenBy"] * 6
@@ -1233,6 +1256,8 @@ def gen_stage(rng, kind, shape, n, allow_terminal=True, streaming_only=False, ce
         return ("unpackIdx", tuple(rng.choice([2, 3, 4]) for _ in range(rng.randrange(1, 3)))), "scalar", "other", 0
     if k == "flatten":
         return ("flatten",), it, ("int" if shape in ("int", "pairint") else shape if shape == "intnull" else "other"), 2 * n
+    if k == "assertAny":
+        return ("assertAny",), kind, shape, n
     if k == "defaultIfEmpty":
         return ("defaultIfEmpty", tuple(gen_values(rng, shape, rng.randrange(0, 3)))), kind, shape, n + 1
     if k in ("times", "index", "isKind") and not certain:
@@ -1326,6 +1351,15 @@ def gen_dict_stage(rng):
     if k == "delete":
         return ("delete", rng.choice(INTS[:8]), rng.choice([None, 1, 2, 5]))
     return (k, tuple((a, b) for a, b in gen_dict(rng, rng.randrange(0, 4)) if not isinstance(a, tuple)))
+
+
+MEMO_STAGES = ("memorize", "defaultIfEmpty", "assertAny")
+
+
+def memo_clash(stages, sg):
+    """assert on an ALREADY memorized iterator replays the remembered prefix twice (open known finding F20): the
+    correspondence keeps out of that class, the C13 oracle demonstrates it"""
+    return sg[0] == "assertAny" and any(p[0] in MEMO_STAGES or (p[0] == "self") for p in stages)
 
 
 def gen_pipeline(rng, maxlen=4):
@@ -1476,6 +1510,8 @@ def gen_pipeline(rng, maxlen=4):
             continue
         certain = not stages or stages[-1][0] in ("toList", "keysList", "valuesList", "itemsList", "splitAt")
         sg, kind, shape, n = gen_stage(rng, kind, shape, n, certain=certain)
+        if memo_clash(stages, sg):
+            continue
         stages.append(sg)
     return src, stages
 
